@@ -26,7 +26,7 @@ LEVEL_NOTE = ('trusted: CPython tokenize for leaves, ast for structure; the requ
 RULE = ('enum: case = (witness, layout, target, operand form, copy); non-trivial = distinct successful coercions to a different kind; '
         'states = distinct result sources; traces = coercions checked')
 ASSUMPTIONS = ['any exception class counts as "raises" except when the two routes disagree about success']
-BOUNDS = {'quick': '545 witnesses (101 hand-written + every parameter-list shape + every arrangement of <= 3 call arguments) x 4 layouts x 104 targets x {FST root, pure AST} + non-root and copy variants on the bare layout; 7 put slots',
+BOUNDS = {'quick': '553 witnesses (109 hand-written + every parameter-list shape + every arrangement of <= 3 call arguments) x 4 layouts x 104 targets x {FST root, pure AST} + non-root and copy variants on the bare layout; 7 put slots',
           'thorough': 'all operand forms x all layouts'}
 
 WITNESSES = [
@@ -84,6 +84,9 @@ WITNESSES += _gen_witnesses()
 WITNESSES += [  # statements that carry trivia a coercion has to strip: trailing semicolons, comments
     ('f(x);', 'stmt'), ('[a, b];', 'stmt'), ('Point(x=0) ;', 'stmt'), ('x;  # c', 'stmt'), ('a = b;', 'stmt'), ('x  # c', 'stmt'),
     ('del a, b;', 'stmt'), ('import a, b;', 'stmt'),
+    # undelimited sequences whose first / last element carries its own delimiters
+    ('[a], [b]', 'pattern'), ('(a, b), (c)', 'pattern'), ('[a], b', 'pattern'), ('a, [b]', 'pattern'), ('[a], [b]', 'expr'),
+    ('(a), (b)', 'expr'), ('{a}, {b: c}', 'expr'), ('(a)[0], (b)', 'expr'),
 ]
 
 MODES = ['all', 'strict', 'exec', 'eval', 'single', 'stmts', 'stmt', 'ExceptHandler', '_ExceptHandlers', 'match_case', '_match_cases',
@@ -97,6 +100,25 @@ TYPES = ['Module', 'Expression', 'Interactive', 'Expr', 'Assign', 'AnnAssign', '
          'MatchSingleton', 'TypeVar', 'TypeVarTuple', 'ParamSpec', 'Add', 'And', 'Not', 'IsNot', 'ListComp', 'GeneratorExp', 'JoinedStr',
          'Await', 'Yield', 'NamedExpr', 'UnaryOp', 'Return', 'Pass', 'If', 'For', 'FunctionDef', 'ClassDef', 'Try', 'Match', 'Raise', 'Assert']
 TARGETS = MODES + TYPES
+
+
+def undelimited_matchseq(src):
+    """Is src a sequence pattern written without enclosing brackets ('a, *b', '[a], [b]')?"""
+    try:
+        pat = ast.parse(f'match _:\n case {src}: pass').body[0].cases[0].pattern
+    except SyntaxError:
+        return False
+    if not isinstance(pat, ast.MatchSequence):
+        return False
+    toks = [t.string for t in tokenize.generate_tokens(io.StringIO(src).readline) if t.type == tokenize.OP and t.string in '()[]{}']
+    if not toks or src.strip()[0] not in '([' or src.strip()[-1] not in ')]':
+        return True
+    depth = 0
+    for i, t in enumerate(toks):
+        depth += 1 if t in '([{' else -1
+        if depth == 0:
+            return i != len(toks) - 1  # the first bracket closes before the end: it belongs to the first element
+    return True
 
 
 def layouts(src, mode, tier):
@@ -240,7 +262,7 @@ def run_witness(fst, wi, tier, res):
                     who = r_f if r_f[0] == 'raised' else r_a
                     res.fail(cid, 'routes-disagree:one-raises', f'src={lsrc!r} target={target}\nfst route={r_f[0]} ast route={r_a[0]}\n{who[1]!r}',
                              {'target': target, 'mode': mode, 'exc': who[1].__class__.__name__}, rep)
-                elif r_f[0] == 'ok' and r_f[1] != r_a[1] and not (mode == 'pattern' and src in ('a, *b',)):  # an undelimited MatchSequence has no pure-AST spelling
+                elif r_f[0] == 'ok' and r_f[1] != r_a[1] and not (mode == 'pattern' and undelimited_matchseq(src)):  # an undelimited MatchSequence has no pure-AST spelling
                     res.fail(cid, 'routes-disagree:structure', f'src={lsrc!r} target={target}\nfst route={r_f[2]!r}\nast route={r_a[2]!r}',
                              {'target': target, 'mode': mode}, rep)
             if lay == 'bare' or tier == 'thorough':
